@@ -72,6 +72,19 @@ func spaces(thorough bool) []chanmc.Space {
 				{By: ti % 2, Amt: sat(300000, 0), Fate: "settle", Dup: 2}, {By: ti % 2, Amt: sat(100000, 0), Fate: "settle", Dup: 2},
 				{By: 1 - ti%2, Amt: sat(th[0]+th[2], 0), Fate: "fail"},
 			}}})
+			// two HTLCs with equal hash and amount but different expiry: as offered
+			// outputs they are byte-identical, so which output is paired with which
+			// HTLC (BOLT 3: ties broken by CLTV) is observable only through the
+			// lock time of the second-level transactions both sides sign and verify;
+			// added in descending and in ascending expiry order
+			e1, e2 := uint32(500), uint32(400)
+			if ti%2 == 1 {
+				e1, e2 = 400, 500
+			}
+			out = append(out, chanmc.Space{Dev: dev, P: chanmc.Params{Type: typ, OpenerB: openerB, Script: []chanmc.Intent{
+				{By: (ti / 2) % 2, Amt: sat(200000, 0), Fate: "fail", Dup: 3, Expiry: e1}, {By: (ti / 2) % 2, Amt: sat(200000, 0), Fate: "settle", Dup: 3, Expiry: e2},
+				{By: 1 - (ti/2)%2, Amt: sat(th[0]+th[2], 7), Fate: "settle"},
+			}}})
 			out = append(out, chanmc.Space{Dev: dev, P: chanmc.Params{Type: typ, OpenerB: !openerB, Fees: []int64{5000}, Script: []chanmc.Intent{
 				{By: 0, Amt: sat(th[1]-1, 0), Fate: "malformed"}, {By: 1, Amt: sat(th[2], 0), Fate: "settle"},
 				{By: 1, Amt: sat(th[3]-1, 500), Fate: "fail"},
